@@ -1377,7 +1377,21 @@ def _erase(it, f, st, a):
     raise AnalysisBroken('%s: erase with an argument the replay does not understand (%s)' % (f.short, f.loc(st['i'])))
 
 
-VECTOR_HOOKS.update({'find': _find, 'begin': _begin, 'end': _end, 'cbegin': _begin, 'cend': _end, 'operator->': _deref, 'operator*': _deref, 'find_if': _find_if, 'erase': _erase,
+def _emplace(it, f, st, a):
+    m = _vec(it, f, st)
+    if not isinstance(m, dict):
+        m.append(tuple(a) if len(a) > 1 else a[0])
+        return None
+    key = it.cstr(a[0]) if it.cstr(a[0]) is not None else a[0]
+    fresh = key not in m
+    if fresh:
+        m[key] = a[1] if len(a) > 1 else 1
+    pair = {'__cls__': None, '__open__': True, 'first': It(m, key), 'second': int(fresh)}
+    it._keep.append(pair)
+    return it.ref(pair)
+
+
+VECTOR_HOOKS.update({'emplace': _emplace, 'find': _find, 'begin': _begin, 'end': _end, 'cbegin': _begin, 'cend': _end, 'operator->': _deref, 'operator*': _deref, 'find_if': _find_if, 'erase': _erase,
                      'count': lambda it, f, st, a: int((it.cstr(a[0]) if it.cstr(a[0]) is not None else a[0]) in _vec(it, f, st)),
                      'back': lambda it, f, st, a: _elem(it, f, st, _vec(it, f, st), len(_vec(it, f, st)) - 1, 'back', False),
                      'front': lambda it, f, st, a: _elem(it, f, st, _vec(it, f, st), 0, 'front', False),
